@@ -32,6 +32,8 @@ REACTIONS = {
                                      allowed_intermediate_particles=["rho(770)+"], allowed_interaction_types=["strong"]),
     "J/psi->pi0 pi+ pi- (rho0)": dict(initial_state=("J/psi(1S)", [-1, 0, +1]), final_state=["pi0", "pi+", "pi-"],
                                      allowed_intermediate_particles=["rho(770)0"], allowed_interaction_types=["strong"]),
+    "J/psi->pi0 pi+ pi- (rho+,rho-)": dict(initial_state=("J/psi(1S)", [-1, 0, +1]), final_state=["pi0", "pi+", "pi-"],
+                                          allowed_intermediate_particles=["rho(770)+", "rho(770)-"], allowed_interaction_types=["strong"]),
     "J/psi->pi0 pi+ pi- (rho+,rho0)": dict(initial_state=("J/psi(1S)", [-1, 0, +1]), final_state=["pi0", "pi+", "pi-"],
                                           allowed_intermediate_particles=["rho(770)+", "rho(770)0"], allowed_interaction_types=["strong"]),
     "J/psi->pi0 pi+ pi- (rho+,rho0,rho-)": dict(initial_state=("J/psi(1S)", [-1, 0, +1]), final_state=["pi0", "pi+", "pi-"],
@@ -100,7 +102,7 @@ def run(config, tier, seed):
     from ampform.kinematics.lorentz import create_four_momentum_symbols
 
     logging.getLogger().setLevel(logging.ERROR)
-    reaction = qrules.generate_transitions(**REACTIONS[config["reaction"]], formalism="helicity", number_of_threads=1)
+    reaction = qrules.generate_transitions(**REACTIONS[config["reaction"]], formalism=config.get("formalism", "helicity"), number_of_threads=1)
     model = ampform.get_builder(reaction).formulate()
     expr = model.expression.doit()
     momenta = create_four_momentum_symbols(reaction.transitions[0].topology)
@@ -153,20 +155,22 @@ def run(config, tier, seed):
     res = discharge(ctx, obs, config=config["name"], replay=replay, timeout_s=config.get("timeout", 120), hunt_rounds=0)
     for r in res:
         if r.status == "sat":
-            r.selector = f"{config['reaction']}|axis={config['axis']}::rotation dependence"
+            r.selector = f"{config['reaction']}|axis={config['axis']}::rotation dependence"  # both formalisms share the selector
     return res
 
 
 def configs(tier):
     out = []
     # the spin-2 reaction needs minutes per configuration with irreducible-factor generators: thorough tier, fewer events
-    reactions = list(REACTIONS) if tier == "thorough" else ["J/psi->gamma pi0 pi0 (f0)", "J/psi->pi0 pi+ pi- (rho+)", "J/psi->pi0 pi+ pi- (rho0)", "J/psi->pi0 pi+ pi- (rho+,rho0)"]
+    reactions = list(REACTIONS) if tier == "thorough" else ["J/psi->gamma pi0 pi0 (f0)", "J/psi->pi0 pi+ pi- (rho+)", "J/psi->pi0 pi+ pi- (rho0)", "J/psi->pi0 pi+ pi- (rho+,rho-)", "J/psi->pi0 pi+ pi- (rho+,rho0)"]
     events = range(2) if tier == "quick" else range(6)
     for r in reactions:
         for axis in ("x", "y", "z"):
             for k in events:
                 if "f0,f2" in r and k > 0:
                     continue
+                if "rho+,rho-" in r or (tier == "thorough" and "rho" in r):
+                    out.append({"name": f"{r}|canonical|axis={axis}|event#{k}", "reaction": r, "axis": axis, "event": k, "formalism": "canonical-helicity", "config_timeout": 900})
                 out.append({"name": f"{r}|axis={axis}|event#{k}", "reaction": r, "axis": axis, "event": k, "config_timeout": 2400 if "f0,f2" in r else 900, "timeout": 900 if "f0,f2" in r else 120})
     return out
 
